@@ -106,6 +106,7 @@ func c08Result(tag string, in cty.Value, want cty.Type, r cty.Value, err error) 
 	}
 	inT, gotT := in.Type(), r.Type()
 	vAssert("result-type-conforms", cvConforms(gotT, want))
+	vAssert("result-well-formed", cty.VerifWellFormed(r) == "")
 	vAssert("result-type-has-no-optional-attrs", cvNoOptional(gotT) || inT.Equals(gotT))
 	vAssert("result-resolves-placeholders", cvResolved(inT, want, gotT))
 	vAssert("result-keeps-top-level-marks", cvKeepsMarks(in, r))
